@@ -8,7 +8,8 @@
 (***************************************************************************)
 EXTENDS AioCond, P_Cond, Json
 
-CONSTANTS Ops, MaxOps, MaxEnv, EnvKinds
+CONSTANTS Ops, MaxOps, MaxEnv, EnvKinds,
+          Retry      \* TRUE: a client whose scope absorbed its cancellation opens a fresh one and carries on
 
 VARIABLES L, E, hist, pst, pbad
 vars == <<K, L, E, hist, pst, pbad>>
@@ -24,6 +25,10 @@ Init ==
   /\ pbad = {}
 Feed(e) == /\ pst' = CondApplySet(pst, e).ps
            /\ pbad' = pbad \cup CondApplySet(pst, e).bad
+Feed2(e1, e2) == LET r1 == CondApplySet(pst, e1)
+                     r2 == CondApplySet(r1.ps, e2)
+                 IN /\ pst' = r2.ps
+                    /\ pbad' = pbad \cup r1.bad \cup r2.bad
 Ob(cd) == [owner |-> cd.lk.owner, w |-> Len(cd.waiters)]
 Ev(ev, t, op, res, cd) == [ev |-> ev, t |-> t, op |-> op, res |-> res, n |-> 0,
                            owner |-> cd.lk.owner, w |-> Len(cd.waiters)]
@@ -100,11 +105,18 @@ ClientFin(t) ==
   /\ LET holding == \E p \in pst : p.holder = t
          r == IF holding THEN CondRelease(K, L, t) ELSE [q |-> K, cd |-> L, err |-> FALSE]
          x == ScopeExit(r.q, t, Reg(K, t))
+         again == Retry /\ x.caught
+         rel == Ev("rel", t, "rel", IF r.err THEN "error" ELSE "ok", r.cd)
+         cdone == [ev |-> "cdone", t |-> t]
      IN /\ L' = r.cd
-        /\ K' = IF IsExc(x.reg) THEN Raise(x.q, t, x.reg) ELSE Ret(x.q, t)
-        /\ IF holding THEN Feed(Ev("rel", t, "rel", IF r.err THEN "error" ELSE "ok", r.cd))
-                      ELSE UNCHANGED <<pst, pbad>>
-  /\ UNCHANGED <<E, hist>>
+        /\ K' = IF again THEN SetPc(ScopeEnter(x.q, t, FALSE, INF, FALSE, "task"), t, "choose")
+                  ELSE IF IsExc(x.reg) THEN Raise(x.q, t, x.reg) ELSE Ret(x.q, t)
+        /\ E' = IF again THEN [E EXCEPT !.scoped = @ \ {t}] ELSE E
+        /\ IF holding /\ again THEN Feed2(rel, cdone)
+           ELSE IF holding THEN Feed(rel)
+           ELSE IF again THEN Feed(cdone)
+           ELSE UNCHANGED <<pst, pbad>>
+  /\ UNCHANGED hist
 
 LibStep(t) ==
   \/ /\ HelperEnabled(K, t)
